@@ -136,6 +136,7 @@ type obOut struct {
 	Status  string  `json:"status"`
 	Backend string  `json:"backend"`
 	TimeS   float64 `json:"time_s,omitempty"`
+	Second  string  `json:"second_opinion,omitempty"`
 }
 
 func checkProperty(e *engine.Engine, verif, id, tier string, seed int, loadS float64, keep bool) int {
@@ -286,6 +287,29 @@ func checkProperty(e *engine.Engine, verif, id, tier string, seed int, loadS flo
 		}(j)
 	}
 	wg.Wait()
+	secondConfirmed, secondUnknown := 0, 0
+	if tier == "thorough" {
+		deadline := time.Now().Add(25 * time.Minute)
+		var wg2 sync.WaitGroup
+		sem2 := make(chan struct{}, 4)
+		for _, j := range jobs {
+			if j.rep == nil {
+				continue
+			}
+			wg2.Add(1)
+			go func(j *job) {
+				defer wg2.Done()
+				sem2 <- struct{}{}
+				defer func() { <-sem2 }()
+				c, u := e.SecondOpinion(j.rep, scratch, deadline)
+				mu.Lock()
+				secondConfirmed += c
+				secondUnknown += u
+				mu.Unlock()
+			}(j)
+		}
+		wg2.Wait()
+	}
 
 	// collect
 	var all []obOut
@@ -341,7 +365,7 @@ func checkProperty(e *engine.Engine, verif, id, tier string, seed int, loadS flo
 				nSkipped++
 				continue
 			}
-			o := obOut{Name: ob.Name, Kind: ob.Kind, Text: ob.Text, Pos: ob.Pos, Status: ob.Status, Backend: ob.Backend, TimeS: ob.TimeS}
+			o := obOut{Name: ob.Name, Kind: ob.Kind, Text: ob.Text, Pos: ob.Pos, Status: ob.Status, Backend: ob.Backend, TimeS: ob.TimeS, Second: ob.Second}
 			if ob.Kind == "vacuity" {
 				nVac++
 				if ob.Status != "discharged" {
@@ -436,6 +460,7 @@ func checkProperty(e *engine.Engine, verif, id, tier string, seed int, loadS flo
 		"vacuity_canaries_sat":     nVac,
 		"solver_time_s":            map[string]any{"sum": round2(solverSum), "max_function": round2(solverMax)},
 		"slow_obligations":         slow,
+		"second_opinion":           map[string]any{"tier": tier, "confirmed_unsat_by_another_back_end": secondConfirmed, "no_answer_from_other_back_ends": secondUnknown},
 		"known_findings":           knownLines,
 		"not_covered":              cfg.NotCovered,
 		"not_covered_obligations":  unprovedSeen,
@@ -493,6 +518,10 @@ func writeReplay(e *engine.Engine, verif, id string, f *failure) string {
 	if f.rep != nil {
 		rec["function"] = f.rep.Key
 		if f.ob.Status == "refuted" {
+			tryReplay(e, f, rec)
+		} else if f.ob.Status == "undischarged" && f.ob.Model != "" {
+			// a candidate model found under weakened hypotheses: only a confirmed replay counts
+			rec["candidate_model_note"] = "no back end decided the obligation; the inputs below are a candidate found under the quantifier-free hypotheses only and count only if the replay on the real code confirms them"
 			tryReplay(e, f, rec)
 		}
 	}
